@@ -447,6 +447,9 @@ def oracle(case, recs):
                         fail(f"C14/{cls}/run_until/live-event-not-executed", i, f"event {e['tag']} at {e['time'] / S} is live but was not run by {op}")
                     break
                 sh.pend = [e for e in sh.pend if e["time"] > horizon or sh.runnable(e)]
+            elif k in ("until", "for"):
+                # outside the quantifier nothing is demanded; events that cannot run and are due were consumed silently
+                sh.pend = [e for e in sh.pend if e["time"] > horizon or sh.runnable(e)]
             elif k == "next":
                 if nexec == 0:
                     lv = sh.order("seq")
@@ -739,11 +742,18 @@ class Gen:
         self.clk = save
         return out
 
-    def run_piece(self, T=None, p_next=0.2):
-        """one run call; stays within [clock, T] when T is given"""
+    def run_piece(self, T=None, p_next=0.2, p_outside=0.0):
+        """one run call; stays within [clock, T] when T is given.  p_outside: horizons outside the statement's
+        quantifier (before the current time; non-integer for ABMSimulator) - modelled and compared, not judged"""
         r = self.rng
         x = r.random()
         unit = S if self.abm else 4
+        if T is None and r.random() < p_outside:
+            if self.abm and r.random() < 0.5:
+                self.clk += r.choice([2, 4, 12])
+                return ["until", self.clk, True]
+            back = r.choice([4, 8, 16])
+            return ["until", max(0, self.clk - back), self.fl(max(0, self.clk - back))]
         if x < p_next and (T is None or (self.clk + S <= T if self.abm else self.tmax <= T)):
             # run_next_event moves the clock at most to the next tick (ABM) / to the last event time (DEVS)
             self.clk = self.clk + S if self.abm else max(self.clk, self.tmax)
